@@ -107,4 +107,35 @@ def Envelope.wf (U : Str → Option Str) : Envelope → Bool
        | none => true
        | some a => s.scheme == a.scheme)
 
+/-! ## normal form: the two things a Go value can hold that the wire cannot tell apart
+
+An empty non-nil map or slice is left out by `omitempty` exactly like a nil one, so it comes back
+nil. `norm` makes them nil; it changes nothing else. -/
+
+def normMeta : Option (List (Str × Str)) → Option (List (Str × Str))
+  | some [] => none
+  | o => o
+
+def normOpts : Option (List Str) → Option (List Str)
+  | some [] => none
+  | o => o
+
+def Env.norm (e : Env) : Env := { e with metadata := normMeta e.metadata }
+
+def Command.norm (c : Command) : Command := { c with env := c.env.norm }
+
+def Envelope.norm : Envelope → Envelope
+  | .message m => .message { m with env := m.env.norm }
+  | .notification n => .notification { n with env := n.env.norm }
+  | .request c => .request { c with cmd := c.cmd.norm }
+  | .response c => .response { c with cmd := c.cmd.norm }
+  | .session s =>
+    .session { s with env := s.env.norm, encOpts := normOpts s.encOpts, compOpts := normOpts s.compOpts,
+                      schemeOpts := normOpts s.schemeOpts }
+
+/-- the raw struct of the normal form -/
+def Raw.normR (r : Raw) : Raw :=
+  { r with metadata := normMeta r.metadata, encOpts := normOpts r.encOpts, compOpts := normOpts r.compOpts,
+           schemeOpts := normOpts r.schemeOpts }
+
 end LimeModel
